@@ -12,49 +12,76 @@
 
    `make_ffi`, `find_ffi` and `emit` (everything cffi does between text and text) are Section
    variables: the model says how bytes become text and text becomes bytes around them.
-   Hypothesis of the equalities: the locale / stdout encoding is UTF-8, POSIX newline handling. *)
+   Hypothesis of the equalities: the locale / stdout encoding is UTF-8, POSIX newline handling; the tool's own
+   codecs are those of Gen.v. *)
 From Coq Require Import List NArith ZArith Bool.
 Import ListNotations.
 From Cffi Require Import C35.PyStr C24.Utf8 C23.Model.
 Open Scope N_scope.
 
-(* open(path, 'r', encoding='utf-8').read() *)
-Definition read_text (b : list N) : option str :=
-  match utf8_decode b with Some s => Some (universal_nl s) | None => None end.
+(* the codec named by an `encoding=` argument.  Which codec each of the tool's files uses is a REGENERATED fact:
+   coq/C24/Gen.v (`the_codecs`) is extracted from _cffi_gen_src.py on every run by tools/props/c24.py *)
+Inductive codec := Utf8 | Utf8Sig | CodecOther.
 
-(* open(path, 'w', encoding='utf-8').write(s)  /  sys.stdout.write(s) with a UTF-8 stdout *)
-Definition write_text (s : str) : option (list N) := utf8_encode s.
+Definition strip_bom (b : list N) : list N :=
+  match b with 239 :: 187 :: 191 :: r => r | _ => b end.          (* EF BB BF *)
+
+(* bytes.decode(codec): 'utf-8-sig' drops one leading BOM; other codecs are not modelled *)
+Definition decode_with (c : codec) (b : list N) : option str :=
+  match c with
+  | Utf8 => utf8_decode b
+  | Utf8Sig => utf8_decode (strip_bom b)
+  | CodecOther => None
+  end.
+
+(* str.encode(codec) as a file is written: 'utf-8-sig' writes a BOM first *)
+Definition encode_with (c : codec) (s : str) : option (list N) :=
+  match c with
+  | Utf8 => utf8_encode s
+  | Utf8Sig => match utf8_encode s with Some b => Some (239 :: 187 :: 191 :: b) | None => None end
+  | CodecOther => None
+  end.
+
+Record codecs := { c_pyfile : codec; c_cdef : codec; c_csrc : codec; c_output : codec }.
+
+(* open(path, 'r', encoding=c).read(): decoding, then universal newlines *)
+Definition read_text (c : codec) (b : list N) : option str :=
+  match decode_with c b with Some s => Some (universal_nl s) | None => None end.
+
+(* open(path, 'w', encoding=c).write(s)  /  sys.stdout.write(s) with a UTF-8 stdout *)
+Definition write_text (c : codec) (s : str) : option (list N) := encode_with c s.
 
 Section Pipelines.
 Variable ffi : Type.
 Variable make_ffi : str -> str -> str -> ffi.      (* module name, cdef text, C source prelude *)
 Variable find_ffi : str -> str -> option ffi.      (* script text, --ffi-var name *)
 Variable emit : ffi -> str.                        (* the text FFI.emit_c_code generates *)
+Variable cs : codecs.                              (* the tool's codecs (Gen.v) *)
 
-(* FFI().cdef(text); set_source(name, prelude); emit_c_code(filename) *)
-Definition direct (name cdef csrc : str) : option (list N) := write_text (emit (make_ffi name cdef csrc)).
+(* FFI().cdef(text); set_source(name, prelude); emit_c_code(filename)   — UTF-8 locale *)
+Definition direct (name cdef csrc : str) : option (list N) := write_text Utf8 (emit (make_ffi name cdef csrc)).
 
 (* cffi-gen-src read-sources NAME CDEF CSRC OUTPUT   (OUTPUT a path or '-': the same bytes) *)
 Definition gen_src_read_sources (name : str) (cdef_file csrc_file : list N) : option (list N) :=
-  match read_text csrc_file with
+  match read_text (c_csrc cs) csrc_file with
   | None => None
   | Some csrc =>
-    match read_text cdef_file with
+    match read_text (c_cdef cs) cdef_file with
     | None => None
-    | Some cdef => write_text (emit (make_ffi name cdef csrc))
+    | Some cdef => write_text (c_output cs) (emit (make_ffi name cdef csrc))
     end
   end.
 
 (* cffi-gen-src exec-python [--ffi-var VAR] SCRIPT OUTPUT *)
 Definition gen_src_exec_python (script_file : list N) (var : str) : option (list N) :=
-  match read_text script_file with
+  match read_text (c_pyfile cs) script_file with
   | None => None
   | Some script => match find_ffi script var with
                    | None => None
-                   | Some f => write_text (emit f)
+                   | Some f => write_text (c_output cs) (emit f)
                    end
   end.
 
 Definition direct_of_script (script var : str) : option (list N) :=
-  match find_ffi script var with None => None | Some f => write_text (emit f) end.
+  match find_ffi script var with None => None | Some f => write_text Utf8 (emit f) end.
 End Pipelines.
